@@ -23,6 +23,9 @@ var table = map[string]func(props.Cfg) int{
 	"C09": props.C09,
 	"C10": props.C10,
 	"C11": props.C11,
+	"C12": props.C12,
+	"C13": props.C13,
+	"C14": props.C14,
 	"C15": props.C15,
 }
 
